@@ -144,9 +144,11 @@ class Merger(object):
         toffset = 0
         for i, (subdir, sc, st) in enumerate(
                 zip(self.subdirs, spike_clusters_l, spike_templates_l)):
-            n_clu = np.max(sc) + 1
+            # NOTE: Python integers, so that the offsets can be added to id arrays of any
+            # integer dtype (the probes may store signed and unsigned ids).
+            n_clu = int(np.max(sc)) + 1
             # NOTE: the last templates of a probe may have no spikes.
-            n_tmp = max(np.max(st) + 1,
+            n_tmp = max(int(np.max(st)) + 1,
                         np.load(str(subdir / 'templates.npy'), mmap_mode='r').shape[0])
             sc += coffset
             st += toffset
